@@ -299,8 +299,37 @@ fn cli_block(ctx: &Ctx) {
         }
         ctx.sample("cli OS fault", 2, || case());
     }
+    // a sink that really accepts fewer bytes than offered: file size limit with SIGXFSZ ignored
+    // (write returns a short count at the limit, the next write fails with EFBIG)
+    for (name, args, pass, total) in [
+        ("decrypt", vec!["decrypt", "file.ktl", "-t", "bob", "-k", "kr.txt", "--env-pass", "-o", "lim.out"], "bpw", pt.len() as u64),
+        ("password decrypt", vec!["password", "decrypt", "pfile.ktl", "--env-pass", "-o", "lim.out"], "pw", pt.len() as u64),
+        ("encrypt", vec!["encrypt", "plain.bin", "-t", "bob", "-f", "alice", "-k", "kr.txt", "--env-pass", "-o", "lim.out"], "apw", pt.len() as u64 + 132 + 32 * 4),
+    ] {
+        let blocks = (total + 511) / 512;
+        for lim in [1u64, blocks / 2, blocks - 1] {
+            let _ = std::fs::remove_file(wd.file("lim.out"));
+            let o = Cmd::new(&wd.path, &args).pass(pass).fsize_limit(lim).run();
+            ctx.eval();
+            let got = std::fs::read(wd.file("lim.out")).unwrap_or_default();
+            let case = || json!({"case": format!("{} -o under ulimit -f {} (needs {})", name, lim, blocks), "exit": o.exit.describe(), "stderr": o.stderr_s(), "output_bytes": got.len()});
+            match &o.exit {
+                Exit::Code(1) if o.has_error_line() => {
+                    ctx.seen("cli: OS short write then EFBIG -> exit 1 + Error:");
+                    ctx.distinct(&format!("cli|fsize|{}|{}", name, lim));
+                }
+                Exit::Code(0) => ctx.violation(&format!("C10:cli:success-despite-short-write:{}", name.replace(' ', "-")), case()),
+                Exit::Timeout => ctx.inconclusive("C10 cli: timeout"),
+                other => ctx.violation(&format!("C10:cli:abnormal-termination:{}", other.describe()), case()),
+            }
+            if name == "decrypt" && !(got.len() <= pt.len() && got[..] == pt[..got.len()]) {
+                ctx.violation("C10:cli:output-not-a-prefix-after-short-write", case());
+            }
+        }
+    }
     // short reads reach the real binary through a dribbled stdin pipe; the result must not change
-    let sizes: Vec<usize> = (0..40).map(|_| rng.range(1, 40_000)).collect();
+    let mut sizes: Vec<usize> = vec![777, 0]; // small first piece, then a pause longer than the key unlock
+    sizes.extend((0..40).map(|_| rng.range(1, 40_000)));
     let o = Cmd::new(&wd.path, &["encrypt", "-t", "bob", "-f", "alice", "-k", "kr.txt", "--env-pass"]).pass("apw").stdin(Stdin::Dribble(pt.clone(), sizes)).run();
     ctx.eval();
     let ok = o.exit == Exit::Code(0)
@@ -337,4 +366,5 @@ pub fn run(ctx: &Ctx) {
     ctx.require("production-key-encrypt: Write fault -> error", 5);
     ctx.require("production-pass-decrypt: Read fault -> error", 5);
     ctx.require("cli: OS fault", 10);
+    ctx.require("cli: OS short write", 6);
 }
